@@ -31,6 +31,7 @@ func profC05() *RevProfile {
 	p.PSrcFault = 45
 	p.DeltaPct = 50
 	p.SoakPct = 15
+	p.StaleSigPct = 35
 	p.CancelPct = 6 // also at exchange boundaries (between two distribution points, between base and delta)
 	return p
 }
@@ -45,6 +46,7 @@ func profC06() *RevProfile {
 	p.BigBodyPct = 2
 	p.CachePct = 40
 	p.SoakPct = 20
+	p.StaleSigPct = 35
 	return p
 }
 
